@@ -58,8 +58,14 @@ POOL_LABEL = {"confuse": "texts that coincide under white-space / case normalisa
               "firstnull": "projections some of whose results are null, then an index / slice / pipe that depends on which results remain",
               "bignums": "integers beyond 2^53 and 2^63 next to fractions and small integers, in every order, under the sorting / extreme functions and comparisons",
               "zeropad": "number tokens written with leading zeros in every index and slice slot",
+              "strclass": "every string function on strings with CR LF (both orders), combining marks (first / middle / last / alone), zero-width, bidi and astral characters",
+              "scalarties": "sort_by / max_by / min_by over scalar elements with computed keys that tie (ties keep their original order)",
+              "twotokens": "two delimited tokens (raw string, quoted identifier, JSON literal, with and without an escaped delimiter) in one expression, every order",
+              "deepeq": "equal and unequal values nested 63..90 container levels deep under == / != / contains",
+              "tonum": "to_number on strings made of the characters of numbers that are not numbers: null, never a failure",
+              "zeros": "zeros of both signs (documents built with the sign bit set, literals written -0.0): one number under every comparison, sort and extreme",
               "digitkeys": "member names made of digits on arrays and objects (a name never indexes an array)"}
-R6 = ["mapnull", "nested", "twins", "twoslice", "cmpchain", "absent", "litpost", "notgroup", "selfnest", "keyorder", "msidx", "foldlit", "digitkeys", "bsruns", "byorder", "bykeys", "msnull", "exprefbody", "firstnull", "bignums", "zeropad"]
+R6 = ["mapnull", "nested", "twins", "twoslice", "cmpchain", "absent", "litpost", "notgroup", "selfnest", "keyorder", "msidx", "foldlit", "digitkeys", "bsruns", "byorder", "bykeys", "msnull", "exprefbody", "firstnull", "bignums", "zeropad", "strclass", "scalarties", "twotokens", "deepeq", "tonum", "zeros"]
 
 
 def pool_families(fams, work, ev, drv, nsamples=1):
